@@ -340,3 +340,8 @@ _run_c19 = run
 def run(rep, programs):  # noqa: F811
     _run_c19(rep, programs)
     r_classing_table(rep, programs["eval"])
+
+
+EXPLANATION = EXPLANATION + (
+    ' R-CLASSING-TABLE: Classing::new stores the given class list in the first classes.len() table positions in order and records that length; Classing::classes returns exactly that prefix.'
+)
